@@ -1677,7 +1677,7 @@ class ppc_lfdu(ppc_lbz):
 
 class ppc_lfs(ppc_lbz):
     mask_list = [bm_int110000, bm_rt, bm_ra, bm_simm]
-    namestr = ['LFDS']
+    namestr = ['LFS']
 
 class ppc_lfsu(ppc_lbz):
     mask_list = [bm_int110001, bm_rt, bm_ra, bm_simm]
@@ -1960,7 +1960,7 @@ class ppc_sync(ppc_eieio):
 
 class ppc_tlb(ppc_sync, ppc_mn):
     mask_list = [bm_int011111, bm_int00000, bm_int00000, bm_rb, bm_opc10, bm_int0]
-    namestr = ['TLBIE', 'TLBID', 'TLBLI']
+    namestr = ['TLBIE', 'TLBLD', 'TLBLI']
     namedct = {'TLBIE':306, 'TLBLD':978, 'TLBLI':1010}
     mask = {22:bm_set_meta("bm_addopc",(bm_set,),{"fbits":namedct.values()})}
     strname = dict((x[1], x[0]) for x in namedct.items())
@@ -2001,7 +2001,7 @@ class ppc_twi(ppc_mn):
 class ppc_fabs(ppc_and, ppc_mn):
     mask_list = [bm_int111111, bm_frt, bm_int00000, bm_frb, bm_opc10, bm_rc]
     namestr = ['FABS', 'FCTIWZ', 'FCTIW', 'FMR', 'FNABS', 'FNEG', 'FRSP']
-    namedct = {'FABS':264, 'FCTIWZ':15, 'FCTIW':14, 'FMR':72, 'FMABS':136, 'FNEG':40, 'FRSP':12}
+    namedct = {'FABS':264, 'FCTIWZ':15, 'FCTIW':14, 'FMR':72, 'FNABS':136, 'FNEG':40, 'FRSP':12}
     mask = {21:bm_set_meta("bm_addopc",(bm_set,),{"fbits":namedct.values(), 'l':10})}
     strname = dict((x[1], x[0]) for x in namedct.items())
 
